@@ -6,7 +6,7 @@ pub const NAME_POOL: &[&str] = &[
     "Vcs-Git", "Files", "Name+x",
 ];
 
-pub const NON_ASCII: &[&str] = &["é", "ĳ", "ß", "→", "€", "日", "本", "😀", "𝔘", "\u{a0}", "\u{2028}", "ü", "Ж"];
+pub const NON_ASCII: &[&str] = &["é", "ĳ", "ß", "→", "€", "日", "本", "😀", "𝔘", "\u{a0}", "\u{2028}", "ü", "Ж", "\u{feff}", "\u{200b}", "\u{3000}"];
 const CONTROL: &[&str] = &["\u{0}", "\u{1}", "\u{7f}", "\u{b}", "\u{c}", "\u{1b}", "\u{85}"];
 
 #[derive(Clone, Debug)]
@@ -306,7 +306,11 @@ pub fn state_class_pairs(s: &str) -> Vec<u8> {
 
 // ------------------------------------------------------------ stored-byte faults (string level: result stays valid UTF-8)
 
-pub const HOSTILE: &[&str] = &[":", "#", "-", " ", "\t", "\n", "\r", "\r\n", "é", "日", "😀", "\u{0}", "\u{7f}", ",", "|", "(", ")", "[", "]", "<", ">", "$", "{", "}", "=", "!"];
+pub const HOSTILE: &[&str] = &[
+    ":", "#", "-", " ", "\t", "\n", "\r", "\r\n", "é", "日", "😀", "\u{0}", "\u{7f}", ",", "|", "(", ")", "[", "]", "<", ">", "$", "{", "}", "=", "!",
+    // Unicode blanks and invisibles of every UTF-8 length: what \s, trim() and char::is_whitespace see differently from b' '
+    "\u{a0}", "\u{85}", "\u{2028}", "\u{3000}", "\u{2003}", "\u{feff}", "\u{200b}", "\u{c}", "\u{b}",
+];
 
 fn char_starts(s: &str) -> Vec<usize> {
     let mut v: Vec<usize> = s.char_indices().map(|x| x.0).collect();
@@ -332,7 +336,7 @@ fn biased_pos(rng: &mut Rng, s: &str) -> usize {
 
 /// Apply one storage/transport fault that keeps the text valid UTF-8. Returns the fault kind.
 pub fn text_fault(rng: &mut Rng, s: &mut String) -> &'static str {
-    let kind = rng.below(10);
+    let kind = rng.below(11);
     let lines: Vec<String> = s.split_inclusive('\n').map(|l| l.to_string()).collect();
     match kind {
         0 => {
@@ -380,6 +384,15 @@ pub fn text_fault(rng: &mut Rng, s: &mut String) -> &'static str {
         7 => {
             *s = s.replace('\n', "\r\n");
             "crlf"
+        }
+        10 => {
+            // a long run of one delimiter (stack depth / quadratic behaviour probe)
+            let p = biased_pos(rng, s);
+            let unit = rng.s(&["[", "<", "(", ",", "|", "$", "{", "${", "\n ", "\n#", ":", " ", "!", "a,", "a|", "<a>", "(>=", "\r"]);
+            let big = rng.chance(1, 4);
+            let n = 50 + rng.below(if big { 4000 } else { 300 });
+            s.insert_str(p, &unit.repeat(n));
+            "long_run"
         }
         8 => {
             s.push_str(rng.s(&["\n", "junk", "junk\n", "\n\n# x", " ", ":", "-----END PGP SIGNATURE-----\n", "\u{0}", "A: b", " cont"]));
